@@ -1022,3 +1022,91 @@ Proof.
     exists (sts :: stss). split; [rewrite Hs; cbn [obind]; rewrite Hss; reflexivity|].
     cbn [sconcat List.concat]. apply scans_ex_app; assumption.
 Qed.
+
+(** ** the whole script *)
+Definition sub_fn_stmts (command : string) : list stmt :=
+  [ SFunc (fn_name command "_subword"); SScalar "subword_state" 0; SScalar "char_index" 0; SScalar "matched" 0;
+    SLits "subword_candidates" []; SLits "subword_matches" []; SEnd ].
+
+Definition cmd_fns_stmts (command : string) (ics : list (N * string)) : list stmt :=
+  flat_map (fun ic => [SFunc (fn_name command (append "_cmd_" (sN (fst ic)))); SBody (cmd_body (snd ic)); SEnd]) ics.
+
+Definition subtrans_rows (a : alltables) : res (list (N * list (N * N))) :=
+  omap (fun row : N * list (N * N) =>
+          do kvs <- omap (fun pt : N * N => do id <- script_id a (fst pt); Ok (id, snd pt)) (snd row);
+          Ok (fst row, kvs)) (a_subtrans a).
+
+Definition script_stmts (command : string) (start : N) (nd : needs) (a : alltables) (groups : list (list N))
+  : res (list stmt) :=
+  let main := a_main a in
+  do gs <- (if n_subwords nd then
+              do l <- omap (fun ig : N * list N => group_stmts command a (fst ig) (snd ig)) (number_from 0 groups);
+              Ok (List.concat l ++ sub_fn_stmts command)
+            else Ok []);
+  do st <- (if n_subwords nd then
+              do rows <- subtrans_rows a;
+              Ok (SDecl "subword_transitions" :: row_stmts "subword_transitions" rows)
+            else Ok []);
+  Ok (cmd_fns_stmts command (number_from 0 (a_commands a)) ++ gs
+      ++ [SFunc (append "_" command); lits_stmt main] ++ match_stmts main ++ st
+      ++ [SScalar "state" start; SScalar "word_index" 1]
+      ++ completion_stmts main
+      ++ (if n_subwords nd then level_stmts "subword_transitions_level_" (a_csub a) else [])
+      ++ [SLits "candidates" []; SLits "matches" []; SScalar "max_fallback_level" (t_maxlevel main);
+          SEnd; SRegister [append "_" command; command]]).
+
+Lemma tpl_cmd_fn command id body :
+  fmtln write_completion_script_1 (("id", sN id) :: ("cmd", body) :: env_cmd command) = cmd_fn_text command id body.
+Proof. unfold cmd_fn_text. tpl_norm. Qed.
+
+Lemma cmd_fns_scans command (Hc : name_ok command) ics :
+  Forall (fun ic => body_ok (cmd_body (snd ic))) ics ->
+  exists n, scans command n
+    (sconcat (map (fun ic : N * string => fmtln write_completion_script_1
+                                            (("id", sN (fst ic)) :: ("cmd", cmd_body (snd ic)) :: env_cmd command)) ics))
+    (cmd_fns_stmts command ics).
+Proof.
+  induction 1 as [|ic ics Hb _ IH]; [exists 0%nat; apply scans_nil|].
+  cbn [map sconcat cmd_fns_stmts flat_map]. rewrite tpl_cmd_fn.
+  apply scans_ex_app; [exists 2%nat; apply (cmd_fn_scans command (fst ic) _ Hc Hb) | exact IH].
+Qed.
+
+Lemma scans_if cmd (b : bool) t s :
+  (exists n, scans cmd n t s) ->
+  exists n, scans cmd n (if b then t else EmptyString) (if b then s else []).
+Proof. destruct b; [auto | intros _; exists 0%nat; apply scans_nil]. Qed.
+
+Lemma unit_ex cmd env u sts :
+  last (tpl_lines_go [] u) [Text "x"] = [] -> unit_scans_env cmd env u sts -> exists n, scans cmd n (render env u) sts.
+Proof. intros Hl H. eexists. apply (unit_scans_scans cmd env u sts Hl H). Qed.
+
+Lemma subtrans_text a rows_text :
+  omap (fun row : N * list (N * N) =>
+          do kvs <- omap (fun pt : N * N => do id <- script_id a (fst pt); Ok (kv (id, snd pt))) (snd row);
+          Ok (fmtln write_completion_script_5 [("state", sN (fst row)); ("state_transitions", join " " kvs)]))
+       (a_subtrans a) = Ok rows_text ->
+  exists rows, subtrans_rows a = Ok rows
+    /\ rows_text = map (fun row : N * list (N * N) =>
+                          fmtln write_completion_script_5
+                            [("state", sN (fst row)); ("state_transitions", join " " (map kv (snd row)))]) rows.
+Proof.
+  unfold subtrans_rows. generalize (a_subtrans a). intros l. revert rows_text.
+  induction l as [|row l IH]; cbn [omap]; intros rows_text H.
+  - injection H as <-. exists []. split; reflexivity.
+  - apply obind_ok' in H. destruct H as [x [Hx H]]. apply obind_ok' in H. destruct H as [xs [Hxs H]].
+    assert (E : x :: xs = rows_text) by congruence. subst rows_text. clear H.
+    apply obind_ok' in Hx. destruct Hx as [kvs [Hkvs Hx]].
+    assert (Ex : fmtln write_completion_script_5 [("state", sN (fst row)); ("state_transitions", join " " kvs)] = x) by congruence.
+    subst x. clear Hx.
+    assert (K : exists pairs, omap (fun pt : N * N => do id <- script_id a (fst pt); Ok (id, snd pt)) (snd row) = Ok pairs
+                              /\ kvs = map kv pairs).
+    { clear -Hkvs. revert kvs Hkvs. generalize (snd row). intros pts. induction pts as [|pt pts IHp]; cbn [omap]; intros kvs H.
+      - injection H as <-. exists []. split; reflexivity.
+      - apply obind_ok' in H. destruct H as [y [Hy H]]. apply obind_ok' in H. destruct H as [ys [Hys H]].
+        assert (E : y :: ys = kvs) by congruence. subst kvs.
+        apply obind_ok' in Hy. destruct Hy as [id [Hid Hy]]. assert (Ey : kv (id, snd pt) = y) by congruence. subst y.
+        destruct (IHp _ Hys) as [pairs [Hp ->]]. exists ((id, snd pt) :: pairs). split; [|reflexivity].
+        rewrite Hid. cbn [obind]. rewrite Hp. reflexivity. }
+    destruct K as [pairs [Hp ->]]. destruct (IH _ Hxs) as [rows [Hr ->]].
+    exists ((fst row, pairs) :: rows). split; [|reflexivity]. rewrite Hp. cbn [obind]. rewrite Hr. reflexivity.
+Qed.
